@@ -5,16 +5,6 @@ never fails and ends in `b`. -/
 namespace MetadorModel.Diff
 open MetadorModel
 
-theorem addSel_nil_right (p : Path) (fs : Entries) : addSel p fs [] = addEs p fs := by
-  induction fs with
-  | nil => simp [addSel, addEs]
-  | cons a r ih => obtain ⟨k, t⟩ := a; simp [addSel, addEs, ih]
-
-theorem remSel_nil_right (p : Path) (es : Entries) : remSel p es [] = remEs p es := by
-  induction es with
-  | nil => simp [remSel, remEs]
-  | cons a r ih => obtain ⟨k, t⟩ := a; simp [remSel, remEs, ih]
-
 /-! ### single steps at an entry of the root directory -/
 
 theorem apply_add_here {E : Entries} {k : String} (x : DirTree) (hg : AL.get E k = none) :
